@@ -2,8 +2,8 @@
 (* Judges recorded runs of harness/scm/codec.scm against Codec.
 
    Trace: {"e":"B","id":n} opens case n, {"e":"C","id":n,"kind":kind,...} records its results,
-   {"e":"Done"} = the driver reached the end of its input, {"e":"X","rc":r,"to":t} = the process
-   ended (appended by the runner: exit status, timed out).  Every event is consumed; a case whose
+   {"e":"Done"} = the driver reached the end of its input, {"e":"X","rc":r,"to":t,"grp":g} = the
+   process ended (appended by the runner: exit status, timed out, which group of cases it ran).  Every event is consumed; a case whose
    recorded results violate a claim of its kind is *rejected*: TLC prints
    <<"REJECT", id, <<claim names>>>> and counts it, the rest of the trace is still judged.
    A case that was opened and never closed before the process ended is rejected as crash / hang
@@ -154,7 +154,7 @@ TCase == /\ IsEvent("C") /\ open = Ev.id /\ open' = 0
 TDone == IsEvent("Done") /\ open = 0 /\ UNCHANGED <<open, nacc, nrej>>
 TExit == /\ IsEvent("X") /\ open' = 0
          /\ IF open # 0 THEN Reject(open, <<IF Ev.to = 1 THEN "hang" ELSE "crash">>)
-            ELSE IF Ev.rc # 0 THEN Reject(0, <<"exit-status">>)
+            ELSE IF Ev.rc # 0 THEN Reject(0, <<"exit-status", Ev.grp>>)
             ELSE UNCHANGED <<nacc, nrej>>
 TraceInit == l = 1 /\ open = 0 /\ nacc = 0 /\ nrej = 0
 \* the totals are printed when the last event is consumed
